@@ -373,6 +373,69 @@ fn gs() -> (usize, Vec<String>) {
     (runs, bad)
 }
 
+/// C02 as a native sweep: vanilla, unsampled: the returned bound is never below the true regret of the
+/// returned strategies, for pseudo-random matrix games (simultaneous moves), every budget 1..=60, 1 and 2
+/// threads; and an early stop below a threshold implies the true regret is below it too.
+fn bound_dominates() -> (usize, Vec<String>) {
+    use cfr::PlayerNum::{One, Two};
+    let mut runs = 0;
+    let mut bad = Vec::new();
+    let rows = ["r0", "r1", "r2", "r3"];
+    let cols = ["c0", "c1", "c2", "c3"];
+    for seed in 0..40u64 {
+        let h = |i: u64| (seed.wrapping_mul(6364136223846793005).wrapping_add(i.wrapping_mul(1442695040888963407)) >> 33) as u64;
+        let (nr, nc) = (2 + (h(100) % 3) as usize, 2 + (h(101) % 3) as usize);
+        let pay = |i: usize, j: usize| (h((i * 4 + j) as u64) % 11) as f64 - 5.0;
+        let build = || -> G {
+            Game::from_root(p(One, "row", (0..nr).map(|i| (rows[i], p(Two, "col", (0..nc).map(|j| (cols[j], t(pay(i, j)))).collect()))).collect())).unwrap()
+        };
+        let game = build();
+        for threads in [1usize, 2] {
+            for budget in 1..=60u64 {
+                runs += 1;
+                let (s, b) = game.solve(SolveMethod::Full, budget, 0.0, threads, Some(RegretParams::vanilla())).unwrap();
+                let (bound, truth) = (b.regret_bound(), s.get_info().regret());
+                if !(bound >= truth - 1e-9) && bad.len() < 6 {
+                    bad.push(format!("matrix game seed {seed} ({nr}x{nc}), budget {budget}, {threads} thread(s): bound {bound:.4} < true regret {truth:.4}"));
+                }
+            }
+            for thr in [0.5, 1.0, 1.5] {
+                runs += 1;
+                let (s, b) = game.solve(SolveMethod::Full, 100_000, thr, threads, Some(RegretParams::vanilla())).unwrap();
+                let truth = s.get_info().regret();
+                if b.regret_bound() < thr && !(truth < thr + 1e-9) && bad.len() < 6 {
+                    bad.push(format!("matrix game seed {seed} ({nr}x{nc}), threshold {thr}, {threads} thread(s): stopped with bound {:.4} but true regret {truth:.4}", b.regret_bound()));
+                }
+            }
+        }
+    }
+    (runs, bad)
+}
+
+/// Sampled solves on a game with chance nodes BELOW the outcomes of another chance node: if draws were
+/// kept across passes the solver would keep seeing the same world and lock onto a gamble; with fresh
+/// draws every pass the safe action is optimal (gambles are worth -0.5) and the true regret goes to 0.
+fn sampled_reset() -> (usize, Vec<String>) {
+    use cfr::PlayerNum::One;
+    let blind = |a: f64, b: f64| p(One, "blind", vec![("a", t(a)), ("b", t(b)), ("safe", t(0.0))]);
+    let mut runs = 0;
+    let mut bad = Vec::new();
+    for threads in [1usize, 2, 3] {
+        for (pname, params) in [("vanilla", RegretParams::vanilla()), ("dcfr", RegretParams::dcfr())] {
+            runs += 1;
+            let heads = c(Some("after-heads"), vec![(1.0, blind(4.0, -4.0)), (1.0, blind(2.0, -4.0))]);
+            let tails = c(Some("after-tails"), vec![(1.0, blind(-4.0, 4.0)), (1.0, blind(-4.0, 2.0))]);
+            let game: G = Game::from_root(c(Some("coin"), vec![(1.0, heads), (1.0, tails)])).unwrap();
+            let (s, _) = game.solve(SolveMethod::Sampled, 20_000, 0.0, threads, Some(params)).unwrap();
+            let r = s.get_info().regret();
+            if !(r < 0.25) {
+                bad.push(format!("Sampled, {threads} thread(s), {pname}: true regret {r:.3} after 20000 passes (fresh draws every pass give < 0.05; draws kept across passes give 0.5)"));
+            }
+        }
+    }
+    (runs, bad)
+}
+
 fn main() {
     let args: Vec<String> = std::env::args().collect();
     let which = args.get(1).map(|s| s.as_str()).unwrap_or("");
@@ -385,6 +448,8 @@ fn main() {
         "xdriver" => xdriver(),
         "gs" => gs(),
         "c01" => eval::c01(),
+        "c02" => bound_dominates(),
+        "c10" => sampled_reset(),
         "c11" => ctor::c11(args.get(2).map(|s| s.as_str()).unwrap_or("")),
         "c06" => threads(&[(SolveMethod::Full, true), (SolveMethod::Full, false)]),
         "c07" => {
